@@ -243,6 +243,25 @@ def run(prog: Program, rep: Report, tier: str = "quick") -> None:
         if name == "wt":
             rep.assumed("R17.3", module=mi.name, function="wt", construct="wt guards at epsilon, vt at 1e-5", line=f.node.lineno,
                         message="confirmed exception: wt squares vt's asymptote between the two thresholds; the statement's tolerances for vt (2t) and wt (20t + 1e-13/t) were stated for exactly this behaviour")
+    # ---------------------------------------------------------------- R17.6 no raising operation for any finite x
+    # "for every finite x": outside the sweep box the accuracy clauses are out of reach, but an operation that *raises* on a large
+    # finite argument (float ** int raises OverflowError where x * x gives inf; exp of a large positive argument) is visible to the
+    # interval analysis on the whole float range.
+    for name in ("v", "w", "vt", "wt"):
+        f = mi.funcs[name]
+        wx = World(prog, roles)
+        wx.I.opaque_funcs = {mi.funcs["phi_major"].fq}
+        xv, tv = _num("x", -1.7e308, 1.7e308), _num("t", *T_BOX)
+        wx.I.call_function(FuncV(fi=f, node=f.node, module=f.module), [xv, tv], {}, f.node, wx.state)
+        raising = [d for d in wx.I.obligations.values() if d["kind"] in ("pow-overflow", "exp") and not d["ok"]]
+        if wx.I.undecided:
+            rep.undecided("R17.6", module=mi.name, function=name, construct=f"{name}: no raising operation for any finite x", message="; ".join(wx.I.undecided[:2]))
+        elif raising:
+            for d in raising:
+                rep.violated("R17.6", module=d["func"].partition("::")[0], function=d["func"].partition("::")[2], construct=f"{d['kind']}: {norm_text(d['node'], 80)} (via {name})", line=getattr(d["node"], "lineno", 0),
+                             message=f"reached from {name} with a large finite x: " + "; ".join(d["msgs"]) + " — an exception instead of a finite value")
+        else:
+            rep.holds("R17.6", module=mi.name, function=name, construct=f"{name}: no raising operation for any finite x", line=f.node.lineno)
     # ---------------------------------------------------------------- R17.5 vt is odd and wt is even in x, branch by branch
     for name, parity in (("vt", -1), ("wt", 1)):
         _parity_rule(prog, roles, mi, rep, name, parity)
@@ -257,3 +276,4 @@ def run(prog: Program, rep: Report, tier: str = "quick") -> None:
     rep.floor("R17.3", 4)
     rep.floor("R17.4", 4)
     rep.floor("R17.5", 2)
+    rep.floor("R17.6", 4)
